@@ -278,7 +278,7 @@ func (memGetter) Get(url string, _ ...getter.Option) (*bytes.Buffer, error) {
 // repositories.yaml, parent chart).
 type scratch struct {
 	dir, idxDir, cache, repoCfg, chartDir string
-	getters                              getter.Providers
+	getters                               getter.Providers
 }
 
 var theScratch *scratch
